@@ -102,4 +102,22 @@ theorem keepRanks_eq {ι φ : Type} (src : IL ι φ) (n : Nat) :
 
 theorem ranks_kept_without_list_source (a b : Int) : ctorDropRanksBranch false a b = 1 := by simp [ctorDropRanksBranch]
 
+/-! ### `ranks()` -/
+
+/-- **an unordered list has no ranks, whatever is stored** (a copy made with `ordered=False` carries its source's stored ranks) -/
+theorem ranks_none_unordered (stored : LK.Py.V) : ranksDispatch false stored = none := by simp [ranksDispatch]
+
+/-- an ordered list returns the stored ranks when there are some, and the computed 1 … n (code 0) otherwise — never nothing -/
+theorem ranks_ordered (stored : LK.Py.V) : ranksDispatch true stored = some (stored.getD 0) := by
+  cases stored <;> simp [ranksDispatch]
+
+/-- the code's dispatch is the model's `ranksOf`: ranks exist exactly for ordered lists, and stored ranks are what is returned -/
+theorem ranks_dispatch {ι φ : Type} (il : LK.IL.IL ι φ) (code : List Nat → Int) :
+    ((LK.IL.ranksOf il).isSome = (ranksDispatch il.ordered (il.ranks.map code)).isSome) ∧
+    (∀ r, il.ranks = some r → il.ordered = true → LK.IL.ranksOf il = some r ∧ ranksDispatch il.ordered (il.ranks.map code) = some (code r)) := by
+  constructor
+  · cases h : il.ordered <;> cases h2 : il.ranks <;> simp [LK.IL.ranksOf, ranksDispatch, h, h2]
+  · intro r hr ho
+    simp [LK.IL.ranksOf, ranksDispatch, hr, ho]
+
 end LK.Gen.GuardsC16
